@@ -12,6 +12,10 @@ pub fn gen14(tier: &str, rng: &mut Rng) -> Vec<Spec> {
     for a in grid { for b in grid { for (i, xs) in small_hists(if t { 6 } else { 5 }).into_iter().enumerate() {
         let (ta, tb) = tf[i % 3];
         v.push(Spec::new("ab").with("alpha", a.show()).with("beta", b.show()).with("a", ta.show()).with("b", tb.show()).with("xs", join_rats(&xs))); } } }
+    // states injected through FromGuts: non-zero velocity with beta = 0 (or alpha = 0), unreachable from a fresh filter
+    for (al, be) in [(Rat::new(1, 2), Rat::int(0)), (Rat::int(0), Rat::new(1, 4)), (Rat::new(1, 4), Rat::new(1, 2)), (Rat::int(1), Rat::int(0))] {
+        for v0 in [Rat::int(2), Rat::new(-3, 2)] { for xs in small_hists(if t { 4 } else { 3 }) {
+            v.push(Spec::new("ab").with("alpha", al.show()).with("beta", be.show()).with("v0", v0.show()).with("x0", "10").with("a", "1").with("b", "0").with("xs", join_rats(&xs))); } } }
     for _ in 0..(if t { 3000 } else { 400 }) {
         let len = rng.range(1, if t { 14 } else { 10 }) as usize;
         let q = |rng: &mut Rng| Rat::new(rng.range(-4, 12) as i128, 8);
@@ -22,11 +26,13 @@ pub fn gen14(tier: &str, rng: &mut Rng) -> Vec<Spec> {
 pub fn exec14(s: &Spec, stats: &mut Stats) -> Outcome {
     let xs = s.rats("xs"); stats.bump(format!("len:{}", xs.len()));
     let (alpha, beta, a, b) = (s.rat("alpha"), s.rat("beta"), s.rat("a"), s.rat("b"));
-    let mut f = ab::AlphaBeta::with_config(ab::Config { alpha, beta });
+    let (v0, x0) = if s.has("v0") { (s.rat("v0"), Some(s.rat("x0"))) } else { (Rat::int(0), None) };
+    if x0.is_some() { stats.bump("injected-state"); }
+    let mut f = if x0.is_some() { <ab::AlphaBeta<Rat> as signalo_traits::FromGuts>::from_guts((ab::Config { alpha, beta }, ab::State { velocity: v0, value: x0 })) } else { ab::AlphaBeta::with_config(ab::Config { alpha, beta }) };
     let (ys, p1) = run_all(&mut f, &xs);
     let (_, st) = f.into_guts();
     let xs2: Vec<Rat> = xs.iter().map(|x| a * *x + b).collect();
     let (ys2, p2) = run_all(&mut ab::AlphaBeta::with_config(ab::Config { alpha, beta }), &xs2);
-    Outcome::Case(format!("mk {} {} {} {} {} {} {} {} {}", cq(&alpha), cq(&beta), cqlist(&xs), cqlist(&ys), cq(&st.velocity), cq(&a), cq(&b), cqlist(&ys2), cbool(p1 || p2)))
+    Outcome::Case(format!("mk {} {} {} {} {} {} {} {} {} {} {}", cq(&alpha), cq(&beta), cq(&v0), copt(&x0, cq), cqlist(&xs), cqlist(&ys), cq(&st.velocity), cq(&a), cq(&b), cqlist(&ys2), cbool(p1 || p2)))
 }
 
